@@ -1,12 +1,17 @@
 PROPERTY = "C07"
 LEVEL = "proof"
-LEAN_MODULES = ["CifModel.Props.C07", "CifModel.Props.C07Parser", "CifModel.Model.ParserTrace", "CifModel.Model.ParserStoreOps", "CifModel.Lemmas.ParserTrace", "CifModel.Lemmas.ParserValues", "CifModel.Props.ReviewC07"]
+LEAN_MODULES = ["CifModel.Props.C07", "CifModel.Props.C07Parser", "CifModel.Model.ParserTrace", "CifModel.Model.ParserStoreOps", "CifModel.Lemmas.ParserTrace", "CifModel.Lemmas.ParserValues", "CifModel.Props.ReviewC07",
+                "CifModel.Model.StoreRead", "CifModel.Lemmas.StoreReadPaths", "CifModel.Props.C07Read", "CifModel.Props.C07ReadParser"]
 REQUIRED = ["CifModel.C07_serialize_roundtrip", "CifModel.C07_serialize_buffer", "CifModel.C07_buf_write_terminates",
             "CifModel.C07_buf_write_ok", "CifModel.C07_default_cap_ok", "CifModel.C07_columns_roundtrip",
             "CifModel.C07_schema_link", "CifModel.C07_numb_in_list", "CifModel.C07_numb_in_list_full", "CifModel.C07_constructible_wf", "CifModel.C07_constructible_columns", "CifModel.C07_numb_produced_consistent",
             "CifModel.C07_constructible_roundtrip", "CifModel.C07_store_read", "CifModel.C07_store_read_loop_routes",
             "CifModel.C07_store_read_delivers_cells", "CifModel.C07_stored_read_identical", "CifModel.C07_refused_not_stored", "CifModel.C07_numb_in_list_partial", "CifModel.C07_numb_list_roundtrip",
             "CifModel.C07_parser_route", "CifModel.C07_parser_values_numbFree", "CifModel.C07_numbFree_constructible", "CifModel.Model.Parser.values_numbFree", "CifModel.Model.Parser.storeTrace_wf", "CifModel.Model.Parser.parseT_out", "CifModel.Model.Parser.parse_replay",
+            "CifModel.C07_routes_stored", "CifModel.C07_iter_read_identical", "CifModel.C07_walk_read_identical", "CifModel.C07_walk_block_position", "CifModel.C07_walk_frame_position",
+            "CifModel.C07_iteration_is_stored", "CifModel.C07_item_loop_handle", "CifModel.C07_number_read_identical",
+            "CifModel.C07_get_value_flag", "CifModel.C07_set_value_flag", "CifModel.C07_read_paths_identical", "CifModel.C07_parser_read_paths",
+            "CifModel.Store.drain_spec", "CifModel.Store.readLoop_spec", "CifModel.Store.readLoop_cell", "CifModel.Store.walk_delivers_item",
             "CifModel.C07_cex_buf_write_pinned", "CifModel.C07_cex_buf_write_cap1", "CifModel.C07_cex_empty_digits"]
 GEN = ["ErrCodes", "ValueCols"]
 FAMILIES = ["ser", "storeval"]
@@ -49,16 +54,35 @@ PARTIAL = [
     "STATE in which the parser makes the call satisfies the store invariant and that the call succeeds there — that is the composition of "
     "the whole history with the store model (C03_parser_store_refines_full, see C03), which the model driver executes on every request with "
     "a fresh target (sto=ok) but which is not proved.  Family storeval route parse (values of 70 000 - 300 000 units) carries the end-to-end claim",
-    "read path cif_walk and the assembly of packets by cif_pktitr_next_packet: the theorems stop at the SQL statement both read "
-    "(GET_LOOP_VALUES_SQL returns a row for the cell and only rows carrying the value: ReadsBack.loopValuesSql); that next_packet / "
-    "walk hand exactly these row values to the caller is C06 / C14 territory and is carried here by correspondence (storeval reads "
-    "back by get_value, iteration AND walk)",
-    "the numeric double value (column `val`, cif_value_get_number): the column model treats it as content-free (`SqlVal.real`), "
-    "because the reader rebuilds a number from val_text / val_digits / su_digits / scale and never from `val`; that get_number of "
-    "the value read back equals get_number of the value stored follows from identical text+digits+scale by determinism of "
-    "the conversion (property C10), not stated as a C07 theorem; family storeval compares the doubles bit for bit",
-    "several packets: for set_value on an item of a loop with n >= 2 packets get_value's flag (CIF_AMBIGUOUS_ITEM) is left "
-    "existential in C07_store_read / C07_stored_read_identical (the value delivered is pinned)",
+    "read paths cif_pktitr_next_packet and cif_walk (group gY, Props/C07Read.lean): PROVED for every state satisfying GoodS (store "
+    "invariants + every packet total + row numbers below last_row_num: what every in-contract history reaches, C04), every storing "
+    "route (set_value existing / new item, add_item, add_packet, update_packet followed by close) and every constructible value that "
+    "fits — C07_iter_read_identical: through any valid handle of the item's loop, cif_loop_get_packets + next_packet until it stops "
+    "(readLoop of Model/StoreRead = getPackets / nextPacket of Model/PktItr) ends with CIF_FINISHED after one packet per row, in row "
+    "order, and the packet of the row stored into answers the stored value for the item; C07_walk_read_identical: Walk.walk with the "
+    "all-continue program on the tree the walker reads from the store (wcifOf: all_blocks / all_frames / all_loops / get_names / "
+    "get_packets / next_packet) calls the item handler with the stored value and returns CIF_OK; C07_parser_read_paths: the same for "
+    "every store call the parser model records.  NOT proved / hypotheses left: (i) the walk theorem assumes that the CIF has no "
+    "packet-less loop (cif_walk stops at one with CIF_EMPTY_LOOP, C14_empty_loop) and takes the position of the item's container in "
+    "the walker's tree as a hypothesis (InCont: discharged for data blocks by C07_walk_block_position and for a save frame at any "
+    "depth by C07_walk_frame_position, given the chain of frames leading to it and that the chain is no longer than the walker's depth "
+    "bound, number of save frames + 1 — that every chain of a reachable store is that short is not proved here); (ii) the walk statement is for handlers that always continue — what a "
+    "handler's navigation answers suppress is C14's business; (iii) Model/StoreRead composes existing models in the order cif.c calls "
+    "the C functions (walk_loop: get_packets, next_packet..., close) and assumes that a read-only walk leaves the store as it is between "
+    "loops (closeIter after an iteration without updates commits an unchanged database: C06_close_commits) — the composition is tied to "
+    "the real cif_walk by family storeval (mw= field, every request), not by a theorem about cif.c; (iv) update_packet is followed by "
+    "cif_pktitr_close in the theorem (a second iterator cannot be opened inside the first one's transaction)",
+    "the numeric double value (column `val`, cif_value_get_number): the column model still treats the column as content-free "
+    "(`SqlVal.real`) because the reader never consults it; C07_number_read_identical proves what matters instead: for every number "
+    "object the API can produce, get_number / get_su (Model/Numb.getNumber / getSu) of the object rebuilt from the columns, and of a "
+    "character value carrying only its TEXT (deserialised list element, parser route's lazy coercion), give the doubles of the object "
+    "stored (via C10_init_text_roundtrip / C10_autoinit_text_roundtrip for init_numb / autoinit_numb objects).  That the real "
+    "cif_value_get_number computes Model/Numb.getNumber is property C10 (families numb / todbl); family storeval additionally compares "
+    "the doubles of every top-level number read back (d= field) with the model's, bit for bit.  NaN in column `val`: ASSUMPTIONS",
+    "several packets: the flag is pinned — C07_get_value_flag (any Good state: no packet CIF_NOSUCH_ITEM, one packet CIF_OK, two or more "
+    "CIF_AMBIGUOUS_ITEM with the FIRST packet's value) and C07_set_value_flag (after set_value on an existing item: (v, n >= 2) with n "
+    "the number of packets of the item's loop, which the call leaves unchanged: loopRows before = loopRows after, second conjunct); "
+    "for the other routes the flag follows from C07_get_value_flag in the state read; family storeval compares the code (f=)",
     "independence of the stored copy from the caller's object: immediate in the model (values are immutable); at the C level "
     "observed by family storeval (the object is changed and released before reading back) under ASan",
 ]
@@ -69,8 +93,16 @@ LEVEL_TEXT = ("Proof about an executable Lean model of the serialiser/deserialis
               "(bridge constructible -> well-formed), and — store model of C04 composed with the codec (Model/StoreCodec: every value "
               "enters the table through fromColumns . checks . toColumns) — for every constructible value: stored through set_value, "
               "add_item, add_packet or iterator update, both reading statements (GET_VALUE_SQL, GET_LOOP_VALUES_SQL) return it "
-              "identical; set_value -> get_value at API level with the two answers separated (ok(v) iff the loop has a packet). Tied to the C by differential execution: family ser (real serialise -> free -> deserialise, direct calls of "
-              "cif_buf_write) and family storeval (five storing routes x three read-back paths through SQLite).")
+              "identical; set_value -> get_value at API level with the two answers separated (ok(v) iff the loop has a packet) and the "
+              "several-packets flag pinned (C07_get_value_flag, C07_set_value_flag); the two packet-delivering read paths themselves "
+              "(Props/C07Read.lean): a packet iterator opened afterwards delivers the stored value in the packet of the row "
+              "(C07_iter_read_identical, composition of the C06 packet theorem over the whole iteration with the codec round trip), "
+              "cif_walk's item handler receives it (C07_walk_read_identical, through C14_all_continue), also for the parser's store "
+              "calls (C07_parser_read_paths), and the doubles of a number read back equal those of the number stored "
+              "(C07_number_read_identical). Tied to the C by differential execution: family ser (real serialise -> free -> deserialise, direct calls of "
+              "cif_buf_write) and family storeval (five storing routes x three read-back paths through SQLite; the model driver makes the "
+              "executor's calls on the store model composed with the codec and answers through its get_value, packet-iterator and walk "
+              "models, field by field, plus get_value's code and the doubles).")
 LEVEL_NOTE = ("C07_numb_in_list is proved at full strength (numbers from parse_numb, init_numb, autoinit_numb, create/init, via group "
               "gB's initNumb_roundtrip = C10_init_text_roundtrip / C10_autoinit_text_roundtrip; C07_numb_in_list_full states it together with the serialise -> deserialise round trip). Trusted: word-level buffer "
               "abstraction, translator extension, SQLite's faithful storage of bound values, executors/oracles.")
@@ -94,3 +126,4 @@ PARTIAL += [
     "targets (see C03), the packet values of cif_loop_add_packet in the composed state (C07_parser_route's addPkt arm stays about an "
     "arbitrary InvS state), and that the parser never calls set_value for an item that exists (hypothesis `new or has a packet`).",
 ]
+# ---- independent review rA (notes/review/rA-review.md): CifModel.Props.ReviewRC07 is listed in group gX's LEAN_MODULES above ----
